@@ -1,6 +1,8 @@
 package builder
 
 import (
+	"go/types"
+
 	"github.com/dave/jennifer/jen"
 	"github.com/jmattheis/goverter/xtype"
 )
@@ -127,7 +129,9 @@ func (*TargetPointer) Matches(_ *MethodContext, source, target *xtype.Type) bool
 func (*TargetPointer) Build(gen Generator, ctx *MethodContext, sourceID *xtype.JenID, source, target *xtype.Type, path ErrorPath) ([]jen.Code, *xtype.JenID, *Error) {
 	ctx.SetErrorTargetVar(jen.Nil())
 
-	if ctx.UseConstructor {
+	// only the pair of the method itself starts from the constructor, for any
+	// other T -> *U there is no value to write through
+	if ctx.UseConstructor && types.Identical(ctx.Conf.Source.T, source.T) && types.Identical(ctx.Conf.Target.T, target.T) {
 		buildStmt, valueVar, err := buildTargetVar(gen, ctx, sourceID, source, target, path)
 		if err != nil {
 			return nil, nil, err
